@@ -46,6 +46,8 @@ UNARY = {
     "remainder": libsbml.AST_FUNCTION_REM,
     "abs": libsbml.AST_FUNCTION_ABS,
     "ceil": libsbml.AST_FUNCTION_CEILING,
+    "floor": libsbml.AST_FUNCTION_FLOOR,
+    "exp": libsbml.AST_FUNCTION_EXP,
     "sin": libsbml.AST_FUNCTION_SIN,
     "cos": libsbml.AST_FUNCTION_COS,
     "tan": libsbml.AST_FUNCTION_TAN,
@@ -64,6 +66,7 @@ UNARY = {
 
 BINARY = {
     "power": libsbml.AST_POWER,
+    "pow": libsbml.AST_POWER,
 }
 
 NARY = {
@@ -181,13 +184,22 @@ def _convert_ifexp(node: ast.IfExp) -> libsbml.ASTNode:
     return sbml_node
 
 
+def _convert_unary_call(typ: int, arg: ast.expr) -> libsbml.ASTNode:
+    sbml_node = libsbml.ASTNode(typ)
+    if typ == libsbml.AST_FUNCTION_LOG:
+        # MathML log needs its base spelled out
+        base = libsbml.ASTNode(libsbml.AST_REAL)
+        base.setValue(10.0)
+        sbml_node.addChild(base)
+    sbml_node.addChild(_convert_node(arg))
+    return sbml_node
+
+
 def _convert_direct_call(node: ast.Call) -> libsbml.ASTNode:
     func = cast(ast.Name, node.func).id
 
     if (typ := UNARY.get(func)) is not None:
-        sbml_node = libsbml.ASTNode(typ)
-        sbml_node.addChild(_convert_node(node.args[0]))
-        return sbml_node
+        return _convert_unary_call(typ, node.args[0])
     if (typ := BINARY.get(func)) is not None:
         sbml_node = libsbml.ASTNode(typ)
         sbml_node.addChild(_convert_node(node.args[0]))
@@ -199,11 +211,9 @@ def _convert_direct_call(node: ast.Call) -> libsbml.ASTNode:
             sbml_node.addChild(_convert_node(arg))
         return sbml_node
 
-    # General function call
-    sbml_node = libsbml.ASTNode(libsbml.AST_FUNCTION)
-    for arg in node.args:
-        sbml_node.addChild(_convert_node(arg))
-    return sbml_node
+    # Calls of other functions cannot be represented
+    msg = f"Function call {func}"
+    raise NotImplementedError(msg)
 
 
 def _convert_library_call(node: ast.Call) -> libsbml.ASTNode:
@@ -213,9 +223,7 @@ def _convert_library_call(node: ast.Call) -> libsbml.ASTNode:
 
     if parent in ("math", "np", "numpy"):
         if (typ := UNARY.get(attr)) is not None:
-            sbml_node = libsbml.ASTNode(typ)
-            sbml_node.addChild(_convert_node(node.args[0]))
-            return sbml_node
+            return _convert_unary_call(typ, node.args[0])
         if (typ := BINARY.get(attr)) is not None:
             sbml_node = libsbml.ASTNode(typ)
             sbml_node.addChild(_convert_node(node.args[0]))
@@ -227,11 +235,9 @@ def _convert_library_call(node: ast.Call) -> libsbml.ASTNode:
                 sbml_node.addChild(_convert_node(arg))
             return sbml_node
 
-    # General library call
-    sbml_node = libsbml.ASTNode(libsbml.AST_FUNCTION)
-    for arg in node.args:
-        sbml_node.addChild(_convert_node(arg))
-    return sbml_node
+    # Calls of other functions cannot be represented
+    msg = f"Function call {parent}.{attr}"
+    raise NotImplementedError(msg)
 
 
 def _convert_call(node: ast.Call) -> libsbml.ASTNode:
